@@ -350,7 +350,7 @@ def run_polars_depth(rep):
 
 def run(tier, replay=None):
     rep = Report(PROP, tier)
-    regenerate(("scopemap", "envconfig", "builtin"))
+    regenerate(("scopemap", "envconfig", "builtin", "skeletons"))
     rep.audit = audit(PROP, MODULES)
     rep.audit["modules"] = MODULES
     rng = rng_for(PROP)
